@@ -10,8 +10,17 @@ VSTRUCT = "verifier::SDJWTVerifier"
 COMMON = "SDJWTCommon"
 
 
+FIELD_ALIASES = {}   # set from Facts.field_aliases() when facts are loaded (engine.load_facts): borrowed-field helper structs
+
+
 def is_field(v, name, adt=None):
-    return v.kind == "field" and v.d.get("name") == name and (adt is None or v.d.get("adt") == adt)
+    if v.kind != "field":
+        return False
+    n, a = v.d.get("name"), v.d.get("adt")
+    al = FIELD_ALIASES.get((a, n))
+    if al:
+        a, n = al
+    return n == name and (adt is None or a == adt)
 
 
 def has_field(v, name, adt=None):
